@@ -141,7 +141,11 @@ def run(ctx):
         i, r, a = g3[-1] if len(g3) > 1 else g3[0]
         bits = '%s.generators.bp_gens.gens_capacity' % S
         idiom = a[1] == 'Le' and a[3] == '0' and a[2].startswith('(each(%s.openings).v Shr ' % W)
-        if not idiom:
+        if not idiom and a[1] == 'Le' and a[3].lstrip('-').isdigit() and a[2].startswith('(each(%s.openings).v Shr ' % W):
+            # the idiom with another constant: `(v >> bits) <= k` accepts every v below (k + 1) * 2^bits
+            rep.violation('R-C06-1', 'R-C06-1/value-fits/constants', 'value-fit guard accepts (v >> bits) <= %s: values up to %d * 2^bits - 1 pass, the bit decomposition keeps only `bits` bits of them' % (
+                a[3], int(a[3]) + 1), ctx.where(p, r['guard'].bb))
+        elif not idiom:
             # the other common spelling: a comparison of the value with a bound computed from the bit length
             from .common import bound_verdict
             gcond = r['guard'].cond
@@ -245,3 +249,8 @@ def run(ctx):
             rep.violation('R-C06-2', key[:200], 'additional rejection that depends on the witness (%s): %s under %s -- a valid witness may be refused' % (
                 sorted(src), r['atoms'], list(r['ctx'])), ctx.where(p, r['guard'].bb))
     rep.floor('R-C06-2', 'witness-dependent guards', n_t, 5)
+    # R-C06-3 (= R-C17-1 for `PedersenGens::commit`): the prover recomputes every commitment with `commit` and hands on its failure, so
+    # whatever `commit` refuses, the prover refuses: its domain must be exactly 1..=degree blinding factors
+    from . import C17
+    from .common import shared
+    shared(ctx, lambda c: C17.domain_of(c, ['PedersenGens::<P>::commit']), 'R-C17-1', 'R-C06-3')
